@@ -656,9 +656,20 @@ def run_fault(case):
         nsamp = 40 if quick else 250
         idxs = sorted(set(int(x) for x in np.linspace(1, total, nsamp)))
     elif quick and total > 60:
-        idxs = idxs[:60] + idxs[60::3]
+        # every early call, then an even sample of the later ones (bounded:
+        # a time-dependent system with two dissipators makes thousands of
+        # calls, each fault index costs two computations)
+        rest = idxs[60::3]
+        if len(rest) > 120:
+            rest = [rest[int(x)] for x in
+                    np.linspace(0, len(rest) - 1, 120)]
+        idxs = idxs[:60] + sorted(set(rest))
     elif total > 400:
-        idxs = idxs[:200] + idxs[200::4]
+        rest = idxs[200::4]
+        if len(rest) > 600:
+            rest = [rest[int(x)] for x in
+                    np.linspace(0, len(rest) - 1, 600)]
+        idxs = idxs[:200] + sorted(set(rest))
     violations = []
     injected = raised_again = recovered = 0
     worst = 0.0
